@@ -12,9 +12,12 @@ from . import core, textgen
 SETUP = """(define vf-keep-1 (lambda (x) (* x 2)))
 (define vf-keep-2 (vector 1 2 3))
 (define vf-keep-3 (box 10))
-(define (vf-keep-4 . xs) (length xs))"""
+(define (vf-keep-4 . xs) (length xs))
+(define vf-twice 1)"""
 
-PROBE = """(#%prim.list (vf-keep-1 21) (#%prim.vector-ref vf-keep-2 1) (#%prim.unbox vf-keep-3) (vf-keep-4 1 2 3) (#%verif-stack-depth)
+SETUP2 = "(define vf-twice 2)\n(define (vf-get-twice) vf-twice)"
+
+PROBE = """(#%prim.list vf-twice (vf-get-twice) (vf-keep-1 21) (#%prim.vector-ref vf-keep-2 1) (#%prim.unbox vf-keep-3) (vf-keep-4 1 2 3) (#%verif-stack-depth)
   ((lambda (f) (f 1)) (lambda (x) (#%prim.+ x 1)))
   (with-handler (lambda (e) 'handled) (#%prim.car 5))
   (call/cc (lambda (k) (#%prim.+ 1 (k 7))))
@@ -38,7 +41,7 @@ SIZELIKE = re.compile(r"make-|range|repeat|list-tail|take|drop|pad|shift|expt|ch
                       r"substring|string-ref|vector-ref|bytes-ref|^even-rec|^odd-rec")
 
 POOL = {
-    "int-small": ["0", "1", "-1", "2", "7", "255"],
+    "int-small": ["0", "1", "-1", "2", "7", "255", "10", "15", "16", "17", "19", "20", "31", "32", "35", "36", "37", "64", "127", "128", "256"],
     "int-edge": ["4611686018427387903", "4611686018427387904", "9223372036854775807", "-9223372036854775808",
                  "9223372036854775808", "18446744073709551616", "-18446744073709551617", "2147483648", "-2147483649",
                  "1000000000000000000000000000000"],
@@ -98,6 +101,11 @@ def list_functions():
 def gen_call(r, name):
     arity = r.choice([0, 1, 1, 1, 2, 2, 2, 3, 3, 4])
     kinds = [r.choice(KINDS) for _ in range(arity)]
+    if r.random() < 0.35:
+        # homogeneous tuples reach past the first type check: all numbers / all strings+chars / all lists
+        fam = r.choice([["int-small", "int-small", "int-small", "int-edge", "rat", "flo"], ["str", "str", "char", "sym"],
+                        ["list", "nil", "pair", "vec"], ["hash", "set", "int-small", "sym"]])
+        kinds = [r.choice(fam) for _ in range(arity)]
     args = []
     for k in kinds:
         if k == "int-edge" and SIZELIKE.search(name):
@@ -141,6 +149,10 @@ def crash_sig(o, src=""):
 def part_builtins(rep, per_fn):
     fns = list_functions()
     rep.note("builtins_enumerated", len(fns))
+    import os
+    only = os.environ.get("VERIF_C07_ONLY")       # focus the builtin workload (used for replays / experiments)
+    if only:
+        fns = [f for f in fns if re.search(only, f[0])]
     r = core.rng("C07", "builtins")
     units = []
     meta = []
@@ -220,8 +232,12 @@ def part_texts(rep, n):
                 t = r.choice(textgen.SEED_PROGRAMS)
                 cls = "valid"
             hostile.append((cls, t))
+        if r.random() < 0.08:
+            # a unit that redefines an already twice-defined global and is rejected at compile time
+            hostile.insert(r.randrange(len(hostile) + 1), ("redefine-then-free-identifier",
+                           "(define vf-twice %d) (this-is-not-bound-%d)" % (r.randint(3, 9), r.randint(0, 99))))
         cid = "t%d" % i
-        units = [SETUP, PROBE]
+        units = [SETUP, SETUP2, PROBE]
         for cls, t in hostile:
             units.append(t)
             units.append(PROBE)
@@ -237,12 +253,12 @@ def part_texts(rep, n):
         if res is None:
             continue
         us = res["units"]
-        if len(us) < 2 or not us[1].get("ok"):
+        if len(us) < 3 or not us[2].get("ok"):
             rep.inconclusive_note("probe failed on a fresh engine (%s)" % cid)
             continue
-        ref = us[1]["vals"]
+        ref = us[2]["vals"]
         for j, (cls, t) in enumerate(hostile):
-            ui = 2 + 2 * j
+            ui = 3 + 2 * j
             if ui >= len(us):
                 if res["status"] != "ok" and ui == len(us):
                     rep.count()
@@ -283,7 +299,11 @@ def part_texts(rep, n):
 
 def main(tier):
     rep = core.Reporter("C07", tier)
-    ntext, per_fn = (12000, 40) if tier == "quick" else (300000, 500)
+    ntext, per_fn = (12000, 40) if tier == "quick" else (300000, 1500)
+    import os
+    if os.environ.get("VERIF_C07_PER_FN"):
+        per_fn = int(os.environ["VERIF_C07_PER_FN"])
+        ntext = 200
     rep.coverage["rule"] = (
         "texts: seeded hostile sources (bytes, Unicode, token soup, balanced soup, mutated programs, literal stress, "
         "deep nesting, valid programs), singly and as 2-4 unit histories on one engine, each followed by the probe; "
@@ -307,7 +327,7 @@ def replay(path):
         print(outs[0])
         bad = outs[0] is None or "died" in outs[0] or outs[0].get("panic")
     else:
-        units = [SETUP, PROBE]
+        units = [SETUP, SETUP2, PROBE]
         for t in d["units"]:
             units += [t, PROBE]
         res, _ = core.run_cases([{"id": "r", "units": units}], shards=1)
@@ -315,7 +335,7 @@ def replay(path):
         print(json.dumps(r, indent=1)[:3000])
         us = r["units"]
         bad = r["status"] != "ok" or any(u.get("panics") for u in us) or \
-            any(us[k].get("vals") != us[1].get("vals") for k in range(3, len(us), 2))
+            any(us[k].get("vals") != us[2].get("vals") for k in range(4, len(us), 2))
     if bad:
         print("VIOLATION property=C07 replay=%s" % path)
         return 1
